@@ -10,6 +10,7 @@ import (
 	"os/exec"
 	"path/filepath"
 	"sort"
+	"strconv"
 	"strings"
 	"time"
 )
@@ -178,4 +179,110 @@ func FindNode() (string, []string, error) {
 		}
 	}
 	return "", nil, fmt.Errorf("no node binary able to run TypeScript (type stripping) found; tried %v", cands)
+}
+
+// CPURun is the outcome of RunCPU.
+type CPURun struct {
+	Finished bool          // the program ended by itself
+	Spun     bool          // killed after consuming cpuLimit of processor time
+	Blocked  bool          // killed: no thread runnable and no processor time used for blockedFor
+	Starved  bool          // gave up at wallMax without a verdict (overloaded machine)
+	CPU      time.Duration // processor time consumed
+	Wall     time.Duration
+}
+
+// RunCPU runs a command whose termination is the question. Wall-clock time
+// says nothing on a loaded machine, so the verdict rests on what the process
+// did: it "spins" when it has used cpuLimit of processor time (user+system,
+// all threads) without ending, it is "blocked" when for blockedFor none of its
+// threads was runnable and its processor time did not advance. A process
+// that is merely waiting for a processor is neither; at wallMax it is given
+// up as Starved (no verdict).
+func RunCPU(cpuLimit, blockedFor, wallMax time.Duration, dir string, name string, args ...string) CPURun {
+	cmd := exec.Command(name, args...)
+	cmd.Dir = dir
+	cmd.Stdout = nil
+	cmd.Stderr = nil
+	start := time.Now()
+	if err := cmd.Start(); err != nil {
+		return CPURun{Starved: true}
+	}
+	done := make(chan struct{})
+	go func() { cmd.Wait(); close(done) }()
+	pid := cmd.Process.Pid
+	var res CPURun
+	lastCPU := time.Duration(-1)
+	idleSince := time.Now()
+	tick := time.NewTicker(200 * time.Millisecond)
+	defer tick.Stop()
+	for {
+		select {
+		case <-done:
+			res.Finished = true
+			res.Wall = time.Since(start)
+			if cmd.ProcessState != nil {
+				res.CPU = cmd.ProcessState.UserTime() + cmd.ProcessState.SystemTime()
+			}
+			return res
+		case <-tick.C:
+		}
+		cpu, runnable, ok := procActivity(pid)
+		if !ok {
+			continue // gone or unreadable: the Wait above will tell
+		}
+		res.CPU = cpu
+		if cpu != lastCPU || runnable {
+			lastCPU = cpu
+			idleSince = time.Now()
+		}
+		switch {
+		case cpu >= cpuLimit:
+			res.Spun = true
+		case time.Since(idleSince) >= blockedFor:
+			res.Blocked = true
+		case time.Since(start) >= wallMax:
+			res.Starved = true
+		default:
+			continue
+		}
+		cmd.Process.Kill()
+		<-done
+		res.Wall = time.Since(start)
+		return res
+	}
+}
+
+// procActivity reads /proc: processor time of the process (all threads) and
+// whether any thread is runnable or in uninterruptible sleep.
+func procActivity(pid int) (cpu time.Duration, runnable bool, ok bool) {
+	b, err := os.ReadFile(fmt.Sprintf("/proc/%d/stat", pid))
+	if err != nil {
+		return 0, false, false
+	}
+	f := statFields(string(b))
+	if len(f) < 15 {
+		return 0, false, false
+	}
+	ut, _ := strconv.ParseInt(f[11], 10, 64)
+	st, _ := strconv.ParseInt(f[12], 10, 64)
+	cpu = time.Duration(ut+st) * (time.Second / 100) // USER_HZ is 100 on Linux
+	tasks, _ := filepath.Glob(fmt.Sprintf("/proc/%d/task/*/stat", pid))
+	for _, t := range tasks {
+		if tb, err := os.ReadFile(t); err == nil {
+			if tf := statFields(string(tb)); len(tf) > 0 && (tf[0] == "R" || tf[0] == "D") {
+				runnable = true
+			}
+		}
+	}
+	return cpu, runnable, true
+}
+
+// statFields returns the fields of a /proc stat line after the "(comm)" part:
+// [0] = state, [11] = utime, [12] = stime.
+func statFields(line string) []string {
+	i := strings.LastIndex(line, ")")
+	if i < 0 {
+		return nil
+	}
+	return strings.Fields(line[i+1:])
 }
